@@ -418,6 +418,98 @@ func enrollFaultWorld(et bool) *world {
 	return w
 }
 
+// clientEnrollFaultWorld: the same failure on the client side. Client.Enroll of a socketpair end
+// while epoll_ctl(ADD) of the duplicated descriptor fails: Enroll must return an error and no
+// connection (exactly one result), no callback may run for it, the duplicate is closed exactly once
+// (descriptor ledger: a second close could hit a number that already belongs to someone else),
+// and the client keeps working: a second, fault-free Enroll is served and Stop returns nil.
+func clientEnrollFaultWorld(et bool) sched.Scenario {
+	w := newWorld("client-enroll-fault")
+	cw := &clientWorld{world: w}
+	w.onTraffic = echoTraffic
+	active := true
+	w.deviate = func(site string, fd int, n int) []string {
+		if active && site == "epoll_ctl_add" && mcsys.KindOf(fd) == "dup" {
+			return []string{"ENOMEM"}
+		}
+		return nil
+	}
+	var c1 Conn
+	var err1 error
+	cw.body = func(cw *clientWorld) {
+		opts := []Option{WithLogger(nopLogger{}), WithNumEventLoop(1)}
+		if et {
+			opts = append(opts, WithEdgeTriggeredIO(true))
+		}
+		cli, err := NewClient(&mcHandler{w}, opts...)
+		if err != nil {
+			w.violate("client:new", "NewClient: %v", err)
+			return
+		}
+		if err := cli.Start(); err != nil {
+			w.violate("client:start", "Client.Start: %v", err)
+			return
+		}
+		nc, pfd, err := socketpairConn()
+		if err != nil {
+			w.violate("client:socketpair", "%v", err)
+			return
+		}
+		c1, err1 = cli.Enroll(nc)
+		sched.WaitIdle()
+		active = false
+		injected := false
+		for _, e := range mcsys.L.Events {
+			if e.Inject == "ENOMEM" {
+				injected = true
+			}
+		}
+		if injected && err1 == nil {
+			w.violate("ctl:Enroll:released", "the registration of the enrolled connection with the poller failed (epoll_ctl add: ENOMEM) but Client.Enroll returned a connection and no error")
+		}
+		if injected && len(w.conns) > 0 {
+			w.violate("ctl:Enroll:callbacks", "Client.Enroll failed but %d connection(s) saw callbacks", len(w.conns))
+		}
+		if !injected && (err1 != nil || c1 == nil) {
+			w.violate("ctl:Enroll:result", "fault-free Client.Enroll returned Conn=%v Err=%v", c1 != nil, err1)
+		}
+		// liveness: a second connection is served
+		nc2, pfd2, err := socketpairConn()
+		if err != nil {
+			w.violate("client:socketpair", "%v", err)
+			return
+		}
+		p := w.newPeer()
+		p.fd = pfd2
+		if _, err := cli.Enroll(nc2); err != nil {
+			w.violate("ctl:Enroll:second", "after a failed Enroll a second, fault-free Client.Enroll returned %v", err)
+		} else {
+			p.send([]byte("ping"))
+			p.recv(4)
+			if string(p.got) != "ping" {
+				w.violate("client:echo", "after a failed Enroll the next client connection echoed %q", p.got)
+			}
+		}
+		w.runErr = cli.Stop()
+		p.recvAvail()
+		p.close()
+		_ = unix.Close(pfd)
+		mcsys.Forget(pfd)
+	}
+	w.checks = append(w.checks, checkEnd, func(w *world, out *sched.Outcome) (string, string) {
+		for _, ci := range w.conns {
+			if ci.opens != 1 || ci.closes != 1 || len(ci.afterClose) > 0 {
+				return fmt.Sprintf("client connection #%d: OnOpen %d times, OnClose %d times, after close: %v", ci.id, ci.opens, ci.closes, ci.afterClose), "client:lifecycle"
+			}
+		}
+		if m, s := fdCheck(w, out); m != "" {
+			return m, s
+		}
+		return "", ""
+	})
+	return cw
+}
+
 func ctlSchedConfigs() ([]sched.Config, func(string) *sched.Config) {
 	thorough := seqmc.Tier() == "thorough"
 	bounds := []sched.Bound{{PB: 0, DB: 0}, {PB: 0, DB: 1}, {PB: 1, DB: 0}, {PB: 0, DB: 2}, {PB: 1, DB: 1}}
@@ -445,6 +537,10 @@ func ctlSchedConfigs() ([]sched.Config, func(string) *sched.Config) {
 			out = append(out, sched.Config{Property: "C19", Name: nameH, Bounds: []sched.Bound{{PB: 0, DB: 0}, {PB: 0, DB: 1}, {PB: 0, DB: 2}}, Horizon: 40000, Deadline: seqmc.Deadline(), DelayBounded: true,
 				New: func() sched.Scenario { return ctlWorld(nameH, false, false, SourceAddrHash) }})
 		}
+		et3 := et
+		nameC := fmt.Sprintf("client-enroll-fault/%s", map[bool]string{false: "LT", true: "ET"}[et])
+		out = append(out, sched.Config{Property: "C19", Name: nameC, Bounds: []sched.Bound{{PB: 0, DB: 0}, {PB: 0, DB: 1}, {PB: 1, DB: 1}}, Horizon: 40000, Deadline: seqmc.Deadline(), DelayBounded: true,
+			New: func() sched.Scenario { return clientEnrollFaultWorld(et3) }})
 		et2 := et
 		name := fmt.Sprintf("enroll-fault/%s", map[bool]string{false: "LT", true: "ET"}[et])
 		out = append(out, sched.Config{Property: "C19", Name: name, Bounds: []sched.Bound{{PB: 0, DB: 0}, {PB: 0, DB: 1}, {PB: 1, DB: 1}}, Horizon: 40000, Deadline: seqmc.Deadline(), DelayBounded: true,
